@@ -57,7 +57,11 @@ def new_rundir(tag="run"):
     # fixed-length name: the path is written into headers and parameter files, its length must not vary with the number of digits of the
     # process id (a longer header moves every buffer spill = the number and position of write events)
     d = os.path.join(SCRATCH, "verif-%07d-%04d-%s" % (os.getpid(), _counter[0], tag))
-    shutil.rmtree(d, ignore_errors=True)
+    while os.path.exists(d):
+        # process ids are re-used: the directory of a two-phase job (kill here, resume in another fork server) may still be waiting
+        # for its second half under this name - never take over an existing directory
+        _counter[0] += 1
+        d = os.path.join(SCRATCH, "verif-%07d-%04d-%s" % (os.getpid(), _counter[0], tag))
     os.makedirs(d)
     return d
 
